@@ -2,6 +2,7 @@ package diff
 
 import (
 	"fmt"
+	"sort"
 	"strings"
 
 	"github.com/go-openapi/spec"
@@ -43,9 +44,10 @@ func CompareProperties(location DifferenceLocation, schema1 *spec.Schema, schema
 	schema1Props := propertiesFor(schema1, getRefFn1)
 	schema2Props := propertiesFor(schema2, getRefFn2)
 
-	// find deleted and changed properties
-	for eachProp1Name, eachProp1 := range schema1Props {
-		eachProp1 := eachProp1
+	// find deleted and changed properties, in a stable order: the first property to refer to a
+	// definition is the one under which that definition is compared
+	for _, eachProp1Name := range sortedPropertyNames(schema1Props) {
+		eachProp1 := schema1Props[eachProp1Name]
 		childLoc := addChildDiffNode(location, eachProp1Name, eachProp1.Schema)
 
 		if eachProp2, ok := schema2Props[eachProp1Name]; ok {
@@ -62,7 +64,8 @@ func CompareProperties(location DifferenceLocation, schema1 *spec.Schema, schema
 	}
 
 	// find added properties
-	for eachProp2Name, eachProp2 := range schema2Props {
+	for _, eachProp2Name := range sortedPropertyNames(schema2Props) {
+		eachProp2 := schema2Props[eachProp2Name]
 		if _, ok := schema1Props[eachProp2Name]; !ok {
 			childLoc := addChildDiffNode(location, eachProp2Name, eachProp2.Schema)
 
@@ -75,6 +78,15 @@ func CompareProperties(location DifferenceLocation, schema1 *spec.Schema, schema
 	}
 	return propDiffs
 
+}
+
+func sortedPropertyNames(props PropertyMap) []string {
+	names := make([]string, 0, len(props))
+	for name := range props {
+		names = append(names, name)
+	}
+	sort.Strings(names)
+	return names
 }
 
 // CompareFloatValues compares a float data item
